@@ -5,37 +5,37 @@ TEXT = {
     "C18": {
         "technique": "grammar-based property testing with rapid (differential oracle: time.Parse), enumeration of all calendar dates in thorough, mutation/prefix/random strings for the no-panic clause",
         "design_ref": "DESIGN.md §5 C18",
-        "level_text": "Strings from the RFC 3339 grammar that time.Parse accepts must decode (into time.Time and null.Time) to the same instant and offset; all dates of years 0000-9999 (thorough) must give midnight UTC; Format(RFC3339Nano) must round-trip; edited, truncated and random strings must give a time or an error.",
+        "level_text": "Strings from the RFC 3339 grammar that time.Parse accepts must decode (into time.Time and null.Time) to the same instant and offset; all dates of years 0000-9999 (thorough) must give midnight UTC; Format(RFC3339Nano) must round-trip; edited, truncated and random strings must give a time or an error. Decoding goes through one reused buffer (optionally after a previous text of the same shape), and a separate unit decodes the first timestamps of a fresh process.",
         "level_note": "time.Parse is the oracle and also accepts non-RFC strings, so agreement is only demanded inside the grammar.",
     },
     "C19": {
         "technique": "enumeration (all 2^32 day counts in thorough) and rapid draws with an arithmetic oracle (time.Unix) for the read direction, reference decoder + resolution bound for the write direction",
         "design_ref": "DESIGN.md §5 C19",
-        "level_text": "date / timestamp-millis / timestamp-micros / plain long are read through Schema.Codec into time.Time and *time.Time and compared with the instant the specification assigns; written times are decoded by the reference decoder and must be the right calendar day resp. within one unit, and read back within one unit.",
+        "level_text": "date / timestamp-millis / timestamp-micros / plain long are read through Schema.Codec into time.Time and *time.Time and compared with the instant the specification assigns; written times are decoded by the reference decoder and must be the right calendar day resp. within one unit, and read back within one unit. A second unit puts several such columns into one record in every shape (plain, pointer, slice, slice of pointers, map, map of pointers), also through a file whose header is the serialised schema.",
         "level_note": "Stored timestamps must equal the time truncated (rounded down) to the unit; instants within 1 ms of the int64-ns limits excluded.",
     },
     "C20": {
         "technique": "model-based property testing with rapid: registration/roundtrip histories, model = latest registration per type, marker bytes read by the reference decoder plus call counters",
         "design_ref": "DESIGN.md §5 C20",
-        "level_text": "Custom types of struct, named-int and named-slice kind (and unregistered look-alikes) are placed in generated type trees at every position; after arbitrary re-registrations the generated schema must show the registered schema at each occurrence, the bytes must carry the latest builder's marker, values must round-trip and stale builders must not run.",
+        "level_text": "Custom types of struct, named-int and named-slice kind (and unregistered look-alikes) are placed in generated type trees at every position; after arbitrary re-registrations the generated schema must show the registered schema at each occurrence, the bytes must carry the latest builder's marker, values must round-trip and stale builders must not run. Registered schemas are plain, [null,T] or [T,null].",
         "level_note": "Registrations cannot be undone, so each run starts by re-registering a baseline.",
     },
     "C01": {
         "technique": "property-based testing (rapid): generated Go types-as-data x value sequences x encoder configurations, round-trip oracle through an abstraction of the documented normalisations; shrunk failures kept as regression witnesses; the same generator and oracle under Go's coverage-guided fuzzer (rapid.MakeFuzz) in thorough",
         "design_ref": "DESIGN.md §5 C01, §4.2-4.3",
-        "level_text": "Thousands of generated struct types (reflect.StructOf trees over every supported kind, pointer/collection shape and tag combination, plus a catalogue of named types driven through the real Encoder[T]) with correlated record sequences, all three codecs, block sizes from 0 to larger-than-data and arbitrary flush patterns are written and read back; every delivered record must match what was written under exactly the documented normalisations. Sampled exploration: it finds type shapes and value/configuration combinations the suite never reaches, it does not prove absence.",
+        "level_text": "Thousands of generated struct types (reflect.StructOf trees over every supported kind, pointer/collection shape and tag combination, plus a catalogue of named types driven through the real Encoder[T]) with correlated record sequences, all three codecs, block sizes from 0 to larger-than-data and arbitrary flush patterns are written and read back; every delivered record must match what was written under exactly the documented normalisations. Sampled exploration: it finds type shapes and value/configuration combinations the suite never reaches, it does not prove absence. The file is offered through several reader kinds, by value or by pointer into a struct that already holds values, by a consumer that closes banks or keeps them; a separate unit writes one or two records thousands of times (data that compresses by more than 20:1).",
         "level_note": "Trusts spec.Abs/Match as the statement of the documented normalisations and reflect.StructOf types as stand-ins for anonymous struct types; named types only via the catalogue.",
     },
     "C02": {
         "technique": "property-based testing (rapid) with a differential oracle: an independent reference Avro container reader and datum decoder written from the 1.8 specification decodes the library's output; the same generator and oracle under Go's coverage-guided fuzzer (rapid.MakeFuzz) in thorough",
         "design_ref": "DESIGN.md §5 C02, §4.1",
-        "level_text": "The same generated types, values and configurations as C01, but the produced bytes are judged by a reference implementation that shares no code with the library: container framing (magic, metadata, exact counts and sizes, codec, sync, CRC, no trailing bytes), exact-fit decoding of each block under the embedded schema alone, and datum-by-datum agreement with the values written including which union branch was used.",
+        "level_text": "The same generated types, values and configurations as C01, but the produced bytes are judged by a reference implementation that shares no code with the library: container framing (magic, metadata, exact counts and sizes, codec, sync, CRC, no trailing bytes), exact-fit decoding of each block under the embedded schema alone, and datum-by-datum agreement with the values written including which union branch was used. Files written through FileWriter directly, block by block from windows of one buffer, are judged the same way.",
         "level_note": "Trusts harness/ref (self-tested: encode/decode round trip over all encoding choices, agreement with the repository's checked-in Avro files). Where the property text does not decide null vs value (DESIGN §4.3) either branch is accepted.",
     },
     "C03": {
         "technique": "property-based testing (rapid): grammar-based generation of schema x datum x spec-legal wire encoding x compatible Go target; differential oracle (files written by an independent reference writer, decoded values compared with the generated datum); the same generator and oracle under Go's coverage-guided fuzzer (rapid.MakeFuzz) in thorough",
         "design_ref": "DESIGN.md §5 C03, §4.4",
-        "level_text": "Generated record schemas over the supported subset, datums, every block-partition/size-prefix choice for each collection, null in either union position, any partition into file blocks and all codecs are written by the reference writer; the file is read into a generated compatible struct (pointer depth, integer/float width, wrappers, fixed arrays, time.Time) and each value must agree with the datum, or ReadFile must fail when an integer does not fit its field.",
+        "level_text": "Generated record schemas over the supported subset, datums, every block-partition/size-prefix choice for each collection, null in either union position, any partition into file blocks and all codecs are written by the reference writer; the file is read into a generated compatible struct (pointer depth, integer/float width, wrappers, fixed arrays, time.Time) and each value must agree with the datum, or ReadFile must fail when an integer does not fit its field. Files use the header layouts other writers produce (split, sized, reordered metadata, extra keys), blocks without records, unions of more than 64 branches and timestamp values over the whole range of the stored long.",
         "level_note": "Trusts harness/ref as writer and the compatibility table in gen.Target. float32 narrowing of non-representable doubles is not asserted.",
     },
     "C04": {
@@ -47,13 +47,13 @@ TEXT = {
     "C05": {
         "technique": "exhaustive enumeration of the schema-type x Go-kind x position matrix with guard/canary memory around every destination (fault visibility), differential value oracle from the reference encoder; evaluated in a worker subprocess",
         "design_ref": "DESIGN.md §5 C05",
-        "level_text": "Every cell of the matrix (28 schema types x 52 Go types x {field, *field, **field, slice element, pointer slice element, map value}) is built in every run; where Schema.Codec accepts the pair, in-range and out-of-range datums are decoded into a struct whose neighbours and surroundings are filled with a canary pattern: canaries must be intact and an error-free decode must leave exactly the datum's value. Exhaustive over the matrix, sampled over values.",
+        "level_text": "Every cell of the matrix (28 schema types x 52 Go types x {field, *field, **field, slice element, pointer slice element, map value}) is built in every run; where Schema.Codec accepts the pair, in-range and out-of-range datums are decoded into a struct whose neighbours and surroundings are filled with a canary pattern: canaries must be intact and an error-free decode must leave exactly the datum's value. Exhaustive over the matrix, sampled over values. Pairs the property names as mismatched must be refused when the decoder is built. A second unit passes every form of destination (T, *T, **T, slices, maps, scalars, nil) to ReadFile between guard words.",
         "level_note": "A wild store that lands in unrelated heap memory is visible only as a worker crash or a wrong neighbour; rejection of a pair is never demanded, only soundness of accepted pairs.",
     },
     "C06": {
         "technique": "structure-aware mutation fuzzing driven by rapid (token spans from the reference decoder), truncation / bit flips / random bytes, evaluated in a worker subprocess with an address-space limit, watchdog and heap-footprint accounting; native coverage-guided fuzz targets in thorough",
         "design_ref": "DESIGN.md §5 C06, §3.4",
-        "level_text": "Single-token hostile replacements of every length / count / size / selector in valid files and record bodies, truncations, bit flips, header variants, arbitrary schema documents against catalogue targets and timestamp text are evaluated out of process: any panic, process death (fatal OOM, stack overflow), missing answer within 20 s or heap growth beyond 32 MiB + 4096 x input is a violation. Sampled; multi-token malformations only via the thorough tier's fuzz targets.",
+        "level_text": "Single-token hostile replacements of every length / count / size / selector in valid files and record bodies, truncations, bit flips, header variants, arbitrary schema documents against catalogue targets and timestamp text are evaluated out of process: any panic, process death (fatal OOM, stack overflow), missing answer within 20 s or heap growth beyond 32 MiB + 4096 x input is a violation. Sampled; multi-token malformations only via the thorough tier's fuzz targets. A grid of 1-2 MiB files with one altered length (memory bound 64 MiB + 16 x size) and of records with up to 140000 allocations read twice by a bank-closing consumer is sampled in quick and enumerated in thorough.",
         "level_note": "The allocation bound is a threshold, not a proof of proportionality. Arrays with zero-width items and zero-width top-level records are excluded (legal amplification).",
     },
     "C07": {
@@ -89,7 +89,7 @@ TEXT = {
     "C12": {
         "technique": "randomised concurrent programs under the Go race detector with a sequential oracle (rapid generates the per-goroutine programs)",
         "design_ref": "DESIGN.md §5 C12",
-        "level_text": "2-8 goroutines run generated mixes of schema generation, codec construction, registration, decode/encode through shared codecs, whole-file reads, bank closing across goroutines and timestamp parsing; each result must equal the precomputed sequential result and the race detector must stay silent.",
+        "level_text": "2-8 goroutines run generated mixes of schema generation, codec construction, registration, decode/encode through shared codecs, whole-file reads, bank closing across goroutines and timestamp parsing; each result must equal the precomputed sequential result and the race detector must stay silent. A read may be aborted by its callback, which keeps the record and its bank. A case in which no goroutine starts an operation for 20 s while all of them wait for a lock is reported as a deadlock.",
         "level_note": "Schedules are sampled by the Go scheduler; the detector is happens-before based. Failures do not shrink; the failing programs are replayed 200 times.",
     },
     "C13": {
@@ -101,13 +101,13 @@ TEXT = {
     "C14": {
         "technique": "property-based testing (rapid): grammar-based generation of schema documents with layout/extra-attribute metamorphosis, parse/serialise round-trip against a reference parser; native fuzz target in thorough",
         "design_ref": "DESIGN.md §5 C14",
-        "level_text": "Schema trees over every kind and attribute are rendered with random key order, whitespace and unknown attributes; the parsed value must equal the tree, the marshalled bytes must be valid JSON that a reference parser and the library itself read back identically, and one-edit documents that encoding/json rejects must be rejected.",
+        "level_text": "Schema trees over every kind and attribute are rendered with random key order, whitespace and unknown attributes; the parsed value must equal the tree, the marshalled bytes must be valid JSON that a reference parser and the library itself read back identically, and one-edit documents that encoding/json rejects must be rejected. String values may be spelled with JSON escapes; after the caller has edited a parsed value in place, parsing the same text again (SchemaFromString, FileSchema) must still give the document's schema; schema bytes handed to NewFileWriter stay unchanged.",
         "level_note": "Trusts ref.Render/ref.ParseSchema (cross-checked per case). Documents outside 'what a conformant writer produces' are excluded as listed in DESIGN.md.",
     },
     "C15": {
         "technique": "property-based testing (rapid): generated Go types-as-data over the full kind universe and tag space, compared with an independent model of the documented mapping; recursive types evaluated in a worker subprocess",
         "design_ref": "DESIGN.md §5 C15, §4.5",
-        "level_text": "Generated struct types (all field kinds incl. unsupported ones, every tag combination, registered types in every position) and a catalogue of named types (reuse, recursion, embedding, unexported fields, odd package path) are passed to SchemaForType; the result must be an error where the type is inexpressible, must equal an independent model of the documented mapping where it is documented, must be deterministic, structurally valid, stable under marshal/parse and usable by Schema.Codec. Self-referential types run in a subprocess with a watchdog so that a stack overflow is a verdict.",
+        "level_text": "Generated struct types (all field kinds incl. unsupported ones, every tag combination, registered types in every position) and a catalogue of named types (reuse, recursion, embedding, unexported fields, odd package path) are passed to SchemaForType; the result must be an error where the type is inexpressible, must equal an independent model of the documented mapping where it is documented, must be deterministic, structurally valid, stable under marshal/parse and usable by Schema.Codec. Self-referential types run in a subprocess with a watchdog so that a stack overflow is a verdict. After the caller has edited the returned schema in place, generating again must give the same schema.",
         "level_note": "Trusts spec.ModelSchema as the reading of the documented mapping; silent on undocumented kinds. One open known finding (KF-C15-1, named struct defined once per occurrence) is waived for exactly that clause.",
     },
     "C16": {
@@ -119,7 +119,7 @@ TEXT = {
     "C17": {
         "technique": "exhaustive enumeration + property-based testing against an independent reference encoder (differential + round-trip oracle)",
         "design_ref": "DESIGN.md §5 C17",
-        "level_text": "Every int16 value, and in the thorough tier every int32 value and every float32 bit pattern, is written with the public codec and compared byte-for-byte with a zig-zag/base-128 and IEEE-754 implementation written from the specification, then read back; int64/float64 get all varint-length boundaries plus rapid draws; candidate varints (all strings of length <=2 and every continuation-bit pattern up to 11 bytes) are classified by the reference and compared with all three integer codecs. Exhaustive over the named finite spaces, sampled elsewhere.",
+        "level_text": "Every int16 value, and in the thorough tier every int32 value and every float32 bit pattern, is written with the public codec and compared byte-for-byte with a zig-zag/base-128 and IEEE-754 implementation written from the specification, then read back; int64/float64 get all varint-length boundaries plus rapid draws; candidate varints (all strings of length <=2 and every continuation-bit pattern up to 11 bytes) are classified by the reference and compared with all three integer codecs. Exhaustive over the named finite spaces, sampled elsewhere. The same numbers are also written and read inside slices, maps, behind pointers and in null.* wrappers through a record codec, and every candidate varint is also offered as the tail of a file where a block count belongs.",
         "level_note": "Trusts the reference varint/IEEE code in harness/ref (self-tested against encoding/binary). Quick tier samples int32/float32 (boundaries + ~2^20 strided values each) instead of enumerating them.",
     },
 }
